@@ -4,6 +4,6 @@ CONSTANTS
   Paths <- PathsAll
   Variants <- VariantsAll
   Redirects = {FALSE, TRUE}
-  PullGated = FALSE
+  PullGated = TRUE
 INVARIANTS Inv_CredsStrict Inv_WrittenImpliesOrigin
 CHECK_DEADLOCK FALSE
